@@ -64,7 +64,9 @@ func (s *Solver) start() error {
 		s.defined = map[int]bool{}
 		s.send("(set-option :produce-models true)\n")
 		if s.TimeoutMs > 0 {
-			s.send(fmt.Sprintf("(set-option :timeout %d)\n", s.TimeoutMs))
+			// no :timeout here: z3 4.8.12's timer threads can deadlock inside a multi-threaded host;
+			// a deterministic resource limit bounds each query instead (about 2.5k units per ms)
+			s.send(fmt.Sprintf("(set-option :rlimit %d)\n", s.TimeoutMs*2500))
 		}
 		return nil
 	case "z3", "":
